@@ -177,24 +177,24 @@ func (e naiveEngine) oneStepEvalPremise(premise ast.Term, subst unionfind.UnionF
 			return nil
 		})
 	case ast.NegAtom:
-		a, err := functional.EvalAtom(p.Atom, subst)
+		// Same meaning as in the semi-naive engine: a solution iff no stored fact matches.
+		nsubsts, err := premiseNegAtom(p.Atom, e.store, subst)
 		if err != nil {
 			return nil
 		}
-		e.store.GetFacts(a, func(fact ast.Atom) error {
-			if _, err := unionfind.UnifyTermsExtend(p.Atom.Args, fact.Args, subst); err != nil {
-				solutions = append(solutions, subst)
-			}
-			return nil
-		})
+		return nsubsts
 	case ast.Eq:
-		if newsubst, err := unionfind.UnifyTermsExtend([]ast.BaseTerm{p.Left}, []ast.BaseTerm{p.Right}, subst); err == nil {
-			solutions = append(solutions, newsubst)
+		nsubsts, err := premiseEq(p.Left, p.Right, subst)
+		if err != nil {
+			return nil
 		}
+		return nsubsts
 	case ast.Ineq:
-		if _, err := unionfind.UnifyTermsExtend([]ast.BaseTerm{p.Left}, []ast.BaseTerm{p.Right}, subst); err != nil {
-			solutions = append(solutions, subst)
+		nsubsts, err := premiseIneq(p.Left, p.Right, subst)
+		if err != nil {
+			return nil
 		}
+		return nsubsts
 	}
 	return solutions
 }
